@@ -114,6 +114,22 @@ func emitCorpus(dir string) {
 			Agents:  []agentSpec{a2},
 			Prelude: &simIn{Mode: "round", Tree: &node{Name: "root", Children: []*node{shared("t0", []cst{{A: "zone", V: "z2"}})}}, Agents: []agentSpec{a2}}}})
 	}
+	// seeded C05-4: one class under two roles that bind different inbound channels, both orders
+	{
+		cl := direct
+		cl.Bind = []chn{{Name: "c1", Tcp: true}}
+		shared := func(name string, rbind ...chn) *node {
+			n := leaf(name, nil, cl, rbind...)
+			n.ClassKey = "s0"
+			return n
+		}
+		extra := []chn{{Name: "c4", Tcp: true}, {Name: "c5", Tcp: true}, {Name: "c3", Tcp: false}}
+		a1 := agent("h1", full, 4000, nil)
+		round("18_role_binds_differ_plain_last.json",
+			&node{Name: "root", Children: []*node{shared("t0", extra...), shared("t1")}}, a1)
+		round("19_role_binds_differ_plain_first.json",
+			&node{Name: "root", Children: []*node{shared("t0"), shared("t1", extra...)}}, a1)
+	}
 	for _, e := range es {
 		doc := map[string]interface{}{"property": "C05", "cases": []map[string]interface{}{{"kind": e.kind, "input": e.in}}}
 		b, _ := json.MarshalIndent(doc, "", " ")
